@@ -217,3 +217,23 @@ def place_ref(r, L, ei, ref, p_layer):
             return {"m": [list(e) for e in v["m"]] + [["r", ref]]}
         return ref
     L["m"][ei] = [k, put(v, 0)]
+
+
+def enc(v):
+    """Python literal -> protocol YAML encoding (dict keeps insertion order; keys may be
+    str/int/bool/None)."""
+    if isinstance(v, bool) or v is None or isinstance(v, str):
+        return v
+    if isinstance(v, int):
+        return {"i": str(v)}
+    if isinstance(v, float):
+        return {"f": [repr(v), ""]}
+    if isinstance(v, list):
+        return [enc(x) for x in v]
+    if isinstance(v, dict):
+        return {"m": [[enc(k), enc(x)] for k, x in v.items()]}
+    raise ValueError(v)
+
+
+def P(*layers):
+    return {"op": "params", "layers": [enc(l) for l in layers]}
